@@ -1,7 +1,7 @@
 #!/bin/bash
 # usage: tools/try_seed.sh <patch.diff> <prop> [check args]   applies the patch to /repo, runs the check, restores the patched files
 set -u
-patch="$1"; prop="$2"; shift 2
+patch="$(realpath "$1")"; prop="$2"; shift 2
 files=$(git -C /repo apply --numstat "$patch" | awk '{print $3}')
 for f in $files; do mkdir -p /tmp/try_seed_bak/$(dirname $f); cp /repo/$f /tmp/try_seed_bak/$f; done
 git -C /repo apply "$patch" || { echo "PATCH DID NOT APPLY"; exit 3; }
